@@ -21,6 +21,7 @@ struct Case {
       for (auto &kv : fam.occurrences())
         if (kv.second > 1) return false;
     if (nest < 0 || nest > 1) return false;
+    if (merge == 0 && fam.has_dups_within_a_source()) return false;
     for (auto &o : ops)
       if (o.it < 0 || o.it >= (int)iters.size()) return false;
     return true;
@@ -64,12 +65,15 @@ static Case gen_case() {
   c.fam = gen_family(6, true);
   c.dupsort = weighted({60, 20, 20});
   c.nest = chance(25);
+  bool nomerge = false;
   if (chance(15)) {
+    nomerge = true;
     // no merge function, duplicates across sources allowed: a dupsort function makes the order of equal keys defined
     c.merge = 0;
     c.dupsort = chance(50) ? 1 : 2;
   } else if (chance(20)) {
     // no merge function: make the key sets disjoint by giving every source its own last byte
+    nomerge = true;
     c.merge = 0;
     for (size_t si = 0; si < c.fam.srcs.size(); si++) {
       std::set<bytes, BLess> ks;
@@ -88,6 +92,7 @@ static Case gen_case() {
       sp.keys = keep;
     }
   }
+  if (nomerge) c.fam.dedupe_within_sources();
   RefTable m = c.fam.merged();
   KeyUniverse u;
   std::set<unsigned char> al;
@@ -178,6 +183,7 @@ static Result run_case(const Case &c) {
     for (auto &s : c.iters) r.tag("kind_" + std::to_string(s.kind));
     for (auto &s : c.fam.srcs)
       if (s.kind == 1) r.tag("user_defined_source");
+    if (c.fam.has_dups_within_a_source()) r.tag("source_yielding_a_key_twice");
     r.counters["queries_get"] = qst.gets;
     r.counters["queries_range"] = qst.ranges;
   });
